@@ -188,6 +188,15 @@ theorem evOk_inside (l : Layout) (flex : Bool) (owned : List Nat) (hw : LWF l) (
     unfold inodeSize at hi
     simp only [evRegion]
     omega
+  | ibmInit g =>
+    have hg : g < l.groups := hok
+    have h0 := slot_inside l flex hw hfit g hg
+    unfold perGroupMeta at h0
+    have : (metaBase l flex g + 2) * l.bs ≤ l.numBlocks * l.bs := mul_bs_le l.bs (by omega)
+    rw [Nat.add_mul] at this
+    have h2 : (metaBase l flex g + 1) * l.bs = metaBase l flex g * l.bs + l.bs := by rw [Nat.add_mul]; omega
+    simp only [evRegion]
+    omega
   | itab g =>
     have hg : g < l.groups := hok
     have h0 := slot_inside l flex hw hfit g hg
